@@ -14,6 +14,7 @@ import numpy as np
 from ..sched import HarnessError, SchedConfig, Violation
 from ..simdask import SimClient, SimExecutor, StubLimit, patched_dask_uuid, patched_distributed_api, through_distributed
 from ..workload import (
+    cv_is_stateful,
     build_cv,
     build_estimator,
     build_scoring,
@@ -193,9 +194,11 @@ def hygiene_ok(ds, cvspec, min_train=8):
     return True
 
 
-def draw_cv(tape, ds):
+def draw_cv(tape, ds, allow_stateful=True):
     for i in range(8):
         cvspec = gen_cv_spec(tape, ds.n, f"cv{i}")
+        if not allow_stateful and cv_is_stateful(cvspec):
+            continue
         if hygiene_ok(ds, cvspec):
             return cvspec
     return ["default"] if hygiene_ok(ds, ["default"]) else ["kfold", 2, False, None]
@@ -280,7 +283,7 @@ def run_cross_val(tape, stats):
     args = (ds.coordinates, ds.data_arg(), ds.weights_arg())
 
     # the caller may hand the SAME cross-validator object to several calls (it must not be used up or altered)
-    shared_cv = build_cv(cvspec) if tape.coin(0.5, "reuse_cv_object") else None
+    shared_cv = build_cv(cvspec) if tape.coin(0.5, "reuse_cv_object") and not cv_is_stateful(cvspec) else None
     if shared_cv is not None:
         stats["probes"]["cv_object_reused_across_calls"] = 1
 
@@ -533,7 +536,9 @@ def run_splinecv(tape, stats):
     import verde as vd
 
     ds = gen_dataset(tape, ncomp=1, nmax=45, allow_extra=False)
-    cvspec = draw_cv(tape, ds)
+    # SplineCV hands ONE cv object to every candidate: a cv seeded with a RandomState instance then gives
+    # each candidate other splits by design, so only cross-validators without such state are used here
+    cvspec = draw_cv(tape, ds, allow_stateful=False)
     scoring = gen_scoring(tape)
     pool = [1e-4, 1e-2, 1.0, 30.0, 1e3, 1e-6]
     k = tape.randint(2, 4, "ndampings")
